@@ -104,6 +104,9 @@ package stream
 //@   assigns wrCount, wrLast, ctxClock, afCtx, afCount
 //@   ensures written: err == nil ==> wrCount == old(wrCount) + 1 && wrLast == old(str(data))
 //@   ensures at_most_one: wrCount <= old(wrCount) + 1 && wrCount >= old(wrCount)
+//@   ensures cancelled_at_entry: [C19] ctxErrAt(ctx, old(ctxClock)) != nil ==> err == ctxErrAt(ctx, old(ctxClock)) && wrCount == old(wrCount)
+//@   ensures cancellable_is_watched: [C19] ctxDoneChan(ctx) != nil && ctxErrAt(ctx, old(ctxClock)) == nil ==> afCount == old(afCount) + 1 && afCtx == ctx
+//@   ensures uncancellable_adds_nothing: [C19] ctxDoneChan(ctx) == nil && ctxErrAt(ctx, old(ctxClock)) == nil ==> afCount == old(afCount)
 
 //@ func (*Stream).readWithContext
 //@   props C01 C19
@@ -113,10 +116,15 @@ package stream
 //@   ensures read_ok: err == nil ==> rdCount == old(rdCount) + 1 && rdTotal == old(rdTotal) + len(data) && rdLast == str(data) && rdFail == old(rdFail)
 //@   ensures read_fail: err != nil ==> rdCount <= old(rdCount) + 1
 //@   ensures monotone: rdTotal >= old(rdTotal)
+//@   ensures cancelled_at_entry: [C19] ctxErrAt(ctx, old(ctxClock)) != nil ==> err == ctxErrAt(ctx, old(ctxClock)) && rdCount == old(rdCount) && rdTotal == old(rdTotal)
+//@   ensures cancellable_is_watched: [C19] ctxDoneChan(ctx) != nil && ctxErrAt(ctx, old(ctxClock)) == nil ==> afCount == old(afCount) + 1 && afCtx == ctx
+//@   ensures uncancellable_adds_nothing: [C19] ctxDoneChan(ctx) == nil && ctxErrAt(ctx, old(ctxClock)) == nil ==> afCount == old(afCount) && (err != nil ==> rdFail == old(rdFail) + 1)
 //@   ensures fail_class: err != nil ==> rdFail == old(rdFail) + 1 || (rdCount == old(rdCount) + 1 && ctxErrAt(ctx, ctxClock) != nil) || (ctxClock == old(ctxClock) && ctxErrAt(ctx, ctxClock) != nil)
 
 //@ func (*Stream).sendMessageWithEnd
 //@   props C01 C12 C04
+//@   nocall [C19] every_write_is_cancellable: io.Writer.Write
+//@   nocall [C19] every_write_is_cancellable2: net.Conn.Write
 //@   frameprops C17
 //@   ensures duplex: [C17] old(s.finalSendDigest) != nil && old(s.finalRecvDigest) != nil ==> s.finalSendDigest == old(s.finalSendDigest) && s.finalRecvDigest == old(s.finalRecvDigest)
 //@   requires wf: [typeinv] digestsWF(s) && buffersSeparate(s)
@@ -151,6 +159,8 @@ package stream
 
 //@ func (*Stream).ReceiveFrameWithEnd (s, ctx) (result, endFlag, err)
 //@   props C02 C01 C04 C13
+//@   nocall [C19] every_read_is_cancellable: io.ReadFull
+//@   nocall [C19] every_read_is_cancellable2: io.Reader.Read
 //@   frameprops C17
 //@   ensures duplex: [C17] old(s.finalSendDigest) != nil && old(s.finalRecvDigest) != nil ==> s.finalSendDigest == old(s.finalSendDigest) && s.finalRecvDigest == old(s.finalRecvDigest)
 //@   requires wf: [typeinv] digestsWF(s)
@@ -177,6 +187,8 @@ package stream
 
 //@ func (*Stream).ReceiveFrame (s, ctx) (result, err)
 //@   props C02 C01 C04 C13
+//@   nocall [C19] every_read_is_cancellable: io.ReadFull
+//@   nocall [C19] every_read_is_cancellable2: io.Reader.Read
 //@   frameprops C17
 //@   ensures duplex: [C17] old(s.finalSendDigest) != nil && old(s.finalRecvDigest) != nil ==> s.finalSendDigest == old(s.finalSendDigest) && s.finalRecvDigest == old(s.finalRecvDigest)
 //@   requires wf: [typeinv] digestsWF(s)
@@ -201,6 +213,8 @@ package stream
 
 //@ func (*Stream).WriteFrame
 //@   props C01 C12 C04 C09
+//@   nocall [C19] every_write_is_cancellable: io.Writer.Write
+//@   nocall [C19] every_write_is_cancellable2: net.Conn.Write
 //@   frameprops C17
 //@   ensures duplex: [C17] old(s.finalSendDigest) != nil && old(s.finalRecvDigest) != nil ==> s.finalSendDigest == old(s.finalSendDigest) && s.finalRecvDigest == old(s.finalRecvDigest)
 //@   requires wf: [typeinv] digestsWF(s) && buffersSeparate(s)
@@ -221,6 +235,8 @@ package stream
 
 //@ func (*Stream).ReadFrame (s, ctx) (result, isEOM, err)
 //@   props C02 C01 C13
+//@   nocall [C19] every_read_is_cancellable: io.ReadFull
+//@   nocall [C19] every_read_is_cancellable2: io.Reader.Read
 //@   frameprops C17
 //@   ensures duplex: [C17] old(s.finalSendDigest) != nil && old(s.finalRecvDigest) != nil ==> s.finalSendDigest == old(s.finalSendDigest) && s.finalRecvDigest == old(s.finalRecvDigest)
 //@   requires wf: [typeinv] digestsWF(s)
@@ -236,6 +252,8 @@ package stream
 
 //@ func (*Stream).readNextFrame
 //@   props C01 C02 C13
+//@   nocall [C19] every_read_is_cancellable: io.ReadFull
+//@   nocall [C19] every_read_is_cancellable2: io.Reader.Read
 //@   frameprops C17
 //@   ensures duplex: [C17] old(s.finalSendDigest) != nil && old(s.finalRecvDigest) != nil ==> s.finalSendDigest == old(s.finalSendDigest) && s.finalRecvDigest == old(s.finalRecvDigest)
 //@   requires wf: [typeinv] digestsWF(s)
@@ -249,6 +267,8 @@ package stream
 
 //@ func (*Stream).ReceiveCompleteMessage (s, ctx) (result, err)
 //@   props C01 C02 C13
+//@   nocall [C19] every_read_is_cancellable: io.ReadFull
+//@   nocall [C19] every_read_is_cancellable2: io.Reader.Read
 //@   frameprops C17
 //@   ensures duplex: [C17] old(s.finalSendDigest) != nil && old(s.finalRecvDigest) != nil ==> s.finalSendDigest == old(s.finalSendDigest) && s.finalRecvDigest == old(s.finalRecvDigest)
 //@   requires wf: [typeinv] digestsWF(s)
@@ -263,6 +283,8 @@ package stream
 
 //@ func (*Stream).flushPartialFrame
 //@   props C01
+//@   nocall [C19] every_write_is_cancellable: io.Writer.Write
+//@   nocall [C19] every_write_is_cancellable2: net.Conn.Write
 //@   frameprops C17
 //@   ensures duplex: [C17] old(s.finalSendDigest) != nil && old(s.finalRecvDigest) != nil ==> s.finalSendDigest == old(s.finalSendDigest) && s.finalRecvDigest == old(s.finalRecvDigest)
 //@   requires wf: [typeinv] digestsWF(s) && buffersSeparate(s)
@@ -274,6 +296,8 @@ package stream
 
 //@ func (*Stream).WriteMessage
 //@   props C01
+//@   nocall [C19] every_write_is_cancellable: io.Writer.Write
+//@   nocall [C19] every_write_is_cancellable2: net.Conn.Write
 //@   frameprops C17
 //@   ensures duplex: [C17] old(s.finalSendDigest) != nil && old(s.finalRecvDigest) != nil ==> s.finalSendDigest == old(s.finalSendDigest) && s.finalRecvDigest == old(s.finalRecvDigest)
 //@   requires wf: [typeinv] digestsWF(s) && buffersSeparate(s)
@@ -285,6 +309,8 @@ package stream
 
 //@ func (*Stream).EndMessage
 //@   props C01
+//@   nocall [C19] every_write_is_cancellable: io.Writer.Write
+//@   nocall [C19] every_write_is_cancellable2: net.Conn.Write
 //@   frameprops C17
 //@   ensures duplex: [C17] old(s.finalSendDigest) != nil && old(s.finalRecvDigest) != nil ==> s.finalSendDigest == old(s.finalSendDigest) && s.finalRecvDigest == old(s.finalRecvDigest)
 //@   requires wf: [typeinv] digestsWF(s) && buffersSeparate(s)
@@ -301,6 +327,8 @@ package stream
 
 //@ func (*Stream).StartMessageRead
 //@   props C01 C02 C13
+//@   nocall [C19] every_read_is_cancellable: io.ReadFull
+//@   nocall [C19] every_read_is_cancellable2: io.Reader.Read
 //@   frameprops C17
 //@   ensures duplex: [C17] old(s.finalSendDigest) != nil && old(s.finalRecvDigest) != nil ==> s.finalSendDigest == old(s.finalSendDigest) && s.finalRecvDigest == old(s.finalRecvDigest)
 //@   requires wf: [typeinv] streamInv(s)
@@ -312,6 +340,8 @@ package stream
 
 //@ func (*Stream).ReadMessageBytes (s, ctx, data) (n, err)
 //@   props C01 C02 C13
+//@   nocall [C19] every_read_is_cancellable: io.ReadFull
+//@   nocall [C19] every_read_is_cancellable2: io.Reader.Read
 //@   frameprops C17
 //@   ensures duplex: [C17] old(s.finalSendDigest) != nil && old(s.finalRecvDigest) != nil ==> s.finalSendDigest == old(s.finalSendDigest) && s.finalRecvDigest == old(s.finalRecvDigest)
 //@   requires wf: [typeinv] streamInv(s)
